@@ -67,6 +67,7 @@ class Sanitizer:
         self.cells = {}              # race detector state of the current level
         self.stats = dict(reads=0, writes=0, levels=0, actors=0, cells=0, capture_reads=0, assign_writes=0, max_level_width=0, unattributed=0)
         self.nviol = 0
+        self.blind = False           # set when an access cannot be attributed (kernels restructured): the monitor then knows no writers and stops judging
         # expected producer of every c_locs index, from the netlist
         order, deps = W.line_deps(circuit, strip_forks=strip_forks)
         self.exp_writer = {}
@@ -89,6 +90,15 @@ class Sanitizer:
             if loc >= 0:
                 for r in range(loc, loc + int(self.c_caps[self.ppi_offset + i])):
                     self.ppi_slots[r] = self.ppi_offset + i
+        self._idx = np.arange(self.nrows * self.nlanes, dtype=np.int64).reshape(self.nrows, self.nlanes)
+        self.ppo_row = {}            # row -> (slot start, acceptable owners) for every row of every output slot
+        for i in range(self.ppo_offset, len(self.c_locs)):
+            loc = int(self.c_locs[i])
+            if loc < 0 or loc not in self.ppo_expect:
+                continue
+            for r in range(loc, loc + int(self.c_caps[i])):
+                ent = self.ppo_row.setdefault(r, (loc, set()))
+                ent[1].update(self.ppo_expect[loc])
         self.tmp_rows = set(range(int(self.c_locs[self.tmp_idx]), int(self.c_locs[self.tmp_idx]) + int(self.c_caps[self.tmp_idx])))
         self._install()
 
@@ -151,6 +161,8 @@ class Sanitizer:
         return loc, loc + int(self.c_caps[idx])
 
     def on_read(self, key):
+        if self.blind:
+            return
         if self.phase == 'prop':
             self._prop_access(key, False)
         elif self.phase == 'capture':
@@ -158,6 +170,8 @@ class Sanitizer:
         # reads outside the three phases come from the harness itself
 
     def on_write(self, key):
+        if self.blind:
+            return
         if self.phase == 'prop':
             self._prop_access(key, True)
         elif self.phase == 'assign' or self.phase is None:
@@ -166,15 +180,26 @@ class Sanitizer:
         elif self.phase == 'capture':
             self.viol('region', f'capture wrote to signal memory at {key!r}')
 
+    def _cells(self, key):
+        """(rows, lanes) touched by a numpy index expression on the signal memory; None if it cannot be worked out"""
+        try:
+            if isinstance(key, tuple) and len(key) == 2 and isinstance(key[0], (int, np.integer)) and isinstance(key[1], (int, np.integer)):
+                r, l = int(key[0]), int(key[1])
+                if r < 0 or r >= self.nrows or l < 0 or l >= self.nlanes:
+                    return [r], [l]
+                return [r], [l]
+            cells = np.asarray(self._idx[key]).ravel()
+            return (cells // self.nlanes).tolist(), (cells % self.nlanes).tolist()
+        except Exception:
+            self.stats['unattributed'] += 1
+            self.blind = True
+            return None
+
     def _assign_write(self, key):
-        if isinstance(key, tuple):
-            rows, lanes = key
-            rows = [int(rows)]
-            lanes = [int(lanes)]
-        else:
-            rows = [int(r) for r in np.atleast_1d(np.asarray(key))]
-            lanes = None
-        for r in rows:
+        cl = self._cells(key)
+        if cl is None:
+            return
+        for r, lane in zip(*cl):
             self.stats['assign_writes'] += 1
             if r < 0 or r >= self.nrows:
                 self.viol('region', f'assign wrote row {r} outside the memory of {self.nrows} rows')
@@ -183,27 +208,25 @@ class Sanitizer:
             if slot is None:
                 self.viol('region', f'assign wrote row {r}, which is not inside any input slot')
                 continue
-            if lanes is None:
-                self.owner[r, :] = slot
-                self.wlevel[r, :] = -1
-                self.wepoch[r, :] = self.epoch
-            else:
-                self.owner[r, lanes[0]] = slot
-                self.wlevel[r, lanes[0]] = -1
-                self.wepoch[r, lanes[0]] = self.epoch
+            self.owner[r, lane] = slot
+            self.wlevel[r, lane] = -1
+            self.wepoch[r, lane] = self.epoch
 
     def _prop_access(self, key, is_write):
         if self.actor is None:
             # the evaluation kernels are no longer entered through the hooked names (the repository was restructured):
             # the access cannot be attributed, which makes the sanitizer inconclusive - it is not a violation of the property
             self.stats['unattributed'] += 1
+            self.blind = True
             return
+        cl = self._cells(key)
+        if cl is None:
+            return
+        for row, ln in zip(*cl):
+            self._prop_cell(row, ln, is_write)
+
+    def _prop_cell(self, row, ln, is_write):
         z, opnds, lane = self.actor
-        try:
-            row, ln = int(key[0]), int(key[1])
-        except Exception:
-            self.viol('region', f'non-scalar access {key!r} inside an evaluation')
-            return
         self.stats['writes' if is_write else 'reads'] += 1
         if ln != lane:
             self.viol('region', f'actor (line {z}, lane {lane}) touched lane {ln}')
@@ -282,44 +305,18 @@ class Sanitizer:
 
     def _capture_read(self, key):
         a = self.sim.c.a if isinstance(self.sim.c, ShadowC) else np.asarray(self.sim.c)
-        try:
-            rk, lane = key
-        except Exception:
+        cl = self._cells(key)
+        if cl is None:
             return
-        lane = int(lane)
-        if isinstance(rk, slice):
-            start = int(rk.start)
-            rows = list(range(start, int(rk.stop)))
-            accept = self.ppo_expect.get(start)
-            if accept is None:
-                self.viol('region', f'capture read rows [{rk.start},{rk.stop}) which is not an output slot')
-                return
-            for r in rows:
-                self._capture_row(a, r, lane, accept)
-                if a[r, lane] >= W.TMAX:
-                    break
-        else:
-            r = int(rk)
-            accept = set()
-            for loc, ws_ in self.ppo_expect.items():
-                # the capacity of the slot is that of the captured line
-                if loc <= r:
-                    accept |= ws_ if self._slot_contains(loc, r) else set()
-            if not accept:
+        for r, lane in zip(*cl):
+            ent = self.ppo_row.get(r)
+            if ent is None:
                 self.viol('region', f'capture read row {r} which is not inside any output slot')
                 return
+            loc, accept = ent
+            if r > loc and (a[loc:r, lane] >= W.TMAX).any():
+                continue          # behind the waveform's terminator: the content is not part of the waveform
             self._capture_row(a, r, lane, accept)
-
-    def _slot_contains(self, loc, r):
-        caps = getattr(self, '_ppo_caps', None)
-        if caps is None:
-            caps = {}
-            for i in range(self.ppo_offset, len(self.c_locs)):
-                l = int(self.c_locs[i])
-                if l >= 0:
-                    caps[l] = max(caps.get(l, 0), int(self.c_caps[i]))
-            self._ppo_caps = caps
-        return loc <= r < loc + caps.get(loc, 0)
 
     def _capture_row(self, a, r, lane, accept):
         self.stats['capture_reads'] += 1
